@@ -6,7 +6,10 @@ import (
 	"fmt"
 	"io"
 	"math/rand"
+	"os"
+	"path/filepath"
 	"reflect"
+	"sort"
 	"strings"
 	"sync"
 
@@ -625,6 +628,18 @@ func c18MissingKeys(ctx *core.Ctx, c *c18File, part *c18Keys, missing map[string
 		return
 	}
 	ctx.Hist("missing_keys", fmt.Sprintf("opened-missing-%d", min(len(missing), 3)))
+	// encrypted footer: the statistics of a column with its own key sit in the footer envelope, under the footer key
+	if c.Enc.EncFooter {
+		for _, rg := range f.Metadata().RowGroups {
+			for ci, cc := range rg.Columns {
+				ps := strings.Join(c.E.Schema.Columns()[ci], ".")
+				if missing[ps] && (len(cc.MetaData.Statistics.MinValue) > 0 || len(cc.MetaData.Statistics.MaxValue) > 0) {
+					ctx.Observe("footer-key-opens-column-key-statistics", "encrypted-footer mode: min/max statistics of a column that has its own key are readable by a reader that holds only the footer key (the column metadata is sealed inside the footer envelope only; the format document seals it separately under the column key). Lean: C18Leak.footer_key_opens_column_key_statistics",
+						c.detail(map[string]any{"column": ps, "min": fmt.Sprintf("%x", cc.MetaData.Statistics.MinValue), "max": fmt.Sprintf("%x", cc.MetaData.Statistics.MaxValue)}))
+				}
+			}
+		}
+	}
 	paths := c.E.Schema.Columns()
 	pos := 0
 	_ = pos
@@ -779,6 +794,58 @@ func RunC18Aad(ctx *core.Ctx) {
 		}(e)
 	}
 	wg.Wait()
+	// the keyless walker of the Lean side must find the same envelopes, footer split and AAD parameters
+	dir, derr := os.MkdirTemp("", "c18walk")
+	if derr != nil {
+		ctx.Fail("L2", "tempdir", derr.Error(), nil)
+		return
+	}
+	defer os.RemoveAll(dir)
+	var wreqs []string
+	var wwant []string
+	var wjobs []int
+	for ji, j := range jobs {
+		if j.lay.NoKey > 0 {
+			continue
+		}
+		path := filepath.Join(dir, fmt.Sprintf("f%d.parquet", ji))
+		if err := os.WriteFile(path, j.c.Data, 0o644); err != nil {
+			ctx.Fail("L2", "tempfile", err.Error(), nil)
+			return
+		}
+		mods := append([]c18Mod{}, j.lay.Mods...)
+		sort.SliceStable(mods, func(a, b int) bool { return mods[a].Off < mods[b].Off })
+		var ms []string
+		for _, m := range mods {
+			ms = append(ms, fmt.Sprintf("%d:%d", m.Off, m.Len))
+		}
+		if len(ms) == 0 {
+			ms = []string{"-"} // a file without row groups and with a plaintext footer has no envelope
+		}
+		ef := 0
+		if j.lay.EncFooter {
+			ef = 1
+		}
+		wreqs = append(wreqs, "file.modules "+path)
+		wwant = append(wwant, fmt.Sprintf("ok %d %d %d %s %s %s", ef, j.lay.FooterStart, j.lay.PlainLen, core.Hex(j.lay.Prefix), core.Hex(j.lay.FU), strings.Join(ms, ",")))
+		wjobs = append(wjobs, ji)
+	}
+	if wans, err := d.AskMany(wreqs); err != nil {
+		ctx.Fail("L2", "driver-error", err.Error(), nil)
+	} else {
+		for i, a := range wans {
+			ctx.Hist("lean_walker", strings.Fields(a + " ?")[0])
+			if a != wwant[i] {
+				j := jobs[wjobs[i]]
+				kind := "differs"
+				if !strings.HasPrefix(a, "ok ") {
+					kind = strings.Fields(a + " ?")[0]
+				}
+				ctx.Fail("L2", "lean-walker-"+kind+" encfooter="+fmt.Sprint(j.lay.EncFooter), "the keyless walker of the Lean side (file.modules) and the keyed walker disagree on the modules of the file",
+					j.c.detail(map[string]any{"lean": truncate(a, 600), "harness": truncate(wwant[i], 600)}))
+			}
+		}
+	}
 	// one batch of model requests for all modules of all files, then open each module with the
 	// standard library under the MODEL's AAD
 	var reqs []string
@@ -855,4 +922,11 @@ func c18Bucket(n int) string {
 	default:
 		return "256+"
 	}
+}
+
+func truncate(s string, n int) string {
+	if len(s) > n {
+		return s[:n] + "..."
+	}
+	return s
 }
